@@ -129,7 +129,7 @@ func c07QHits(patterns []string, name string) []string {
 		if err != nil {
 			continue
 		}
-		if norm != "" && re.MatchString(norm) {
+		if name != "" && re.MatchString(norm) { // no hits for an absent name; the root name "." is matched as ""
 			hits = append(hits, p)
 		}
 	}
